@@ -77,6 +77,32 @@ func (C20) Generate(rng *rand.Rand, tier string) []core.Case {
 	flush(n)
 	// the write stream wrapper: sends, callers that give up, responses, a broken stream
 	cases = append(cases, core.Case{Name: "stream-late-response", Ops: []string{"ws.run script=t1,s2,r,r", "ws.run script=s1,t2,s3,r,r,r", "ws.run script=t1,t2,s3,r,r,r,s4,r"}})
+	// range scans over one shard (partition key) or several, with failing requests and broken streams
+	var rops []string
+	nr := 8
+	if tier == "thorough" {
+		nr = 200
+	}
+	for i := 0; i < nr; i++ {
+		k := 1 + rng.Intn(3)
+		single := rng.Intn(2)
+		if single == 1 {
+			k = 1
+		}
+		var sh []string
+		for j := 0; j < k; j++ {
+			switch rng.Intn(4) {
+			case 0:
+				sh = append(sh, "e")
+			case 1:
+				sh = append(sh, fmt.Sprintf("k%d1+k%d2+x", j, j))
+			default:
+				sh = append(sh, fmt.Sprintf("k%d1+k%d2+k%d3", j, j, j))
+			}
+		}
+		rops = append(rops, fmt.Sprintf("rs.run single=%d shards=%s", single, strings.Join(sh, ";")))
+	}
+	cases = append(cases, core.Case{Name: "range-scan-errors", Ops: append([]string{"rs.run single=1 shards=e", "rs.run single=0 shards=k1+k2;e"}, rops...)})
 	nw := 12
 	if tier == "thorough" {
 		nw = 300
@@ -703,6 +729,8 @@ func c20op(op string) string {
 		return c20Merge(kv)
 	case "ws.run":
 		return c20Stream(kv)
+	case "rs.run":
+		return c20RangeScan(kv)
 	}
 	return "bad-op"
 }
@@ -733,6 +761,10 @@ func (C20) Oracle(ops, impl, model []string) string {
 		case "b.run":
 			if msg := c20BatcherOracle(kv, out, strings.HasPrefix(impl[i], "~")); msg != "" {
 				return fmt.Sprintf("op %d: %s (%s)", i, msg, out)
+			}
+		case "rs.run":
+			if strings.HasPrefix(out, "closed=false") {
+				return fmt.Sprintf("op %d: the range scan never completes: its result channel is not closed (%s)", i, out)
 			}
 		case "ws.run":
 			for _, t := range strings.Fields(out) {
